@@ -84,6 +84,14 @@ fn hostile_det_spec(rng: &mut Prng) -> Spec {
     if spec.core.is_none() && rng.chance(1, 25) && make_zero_word_run(rng, &mut spec, true) {
         spec.variant = "hostile_det_zero_word_state".into();
     }
+    if spec.core.is_none() && spec.variant == "hostile_det" && matches!(kind, Kind::Isaac | Kind::Isaac64) && rng.chance(1, 5) {
+        // far along in the stream: block counter near 2^24, 2^31, 2^32 (and 2^56, 2^63, 2^64 for ISAAC-64)
+        let e = *rng.pick(&[24u32, 24, 31, 32, 56, 63, 64]);
+        let e = if kind == Kind::Isaac { e.min(32) } else { e };
+        let base = if e == 64 { 0u64 } else { 1u64 << e };
+        spec.aux = vec![base.wrapping_sub(rng.below(3)).wrapping_add(rng.below(2))];
+        spec.variant = "hostile_det_far_along".into();
+    }
     spec
 }
 
@@ -431,6 +439,12 @@ fn run_hostile_det(spec: &Spec, st: &mut Stats) -> Result<(), E> {
     let native = if kind.word_bits() == 32 { Call::U32 } else { Call::U64 };
     for _ in 0..spec.pre {
         sut(super::c05::do_call(g.as_mut(), native), "pre")?;
+    }
+    if spec.variant == "hostile_det_far_along" {
+        if let Some(f) = far_along(g.as_ref(), spec.aux[0]) {
+            g = f;
+            st.count("probe:far_along_counter");
+        }
     }
     for op in &spec.ops {
         st.sig(&[2, kind.id(), op.code()]);
